@@ -1487,26 +1487,13 @@ fn gen_plan(rng: &mut Rng, seed_tag: u64) -> Plan {
         [nets[net].base[0], nets[net].base[1], nets[net].base[2], h]
     };
     // ---- protocols ----
-    let arp_mode = rng.below(4); // 0,1: none  2: explicit ARP everywhere  3: auto-protocol everywhere
-    let protocols = |rng: &mut Rng| -> (Vec<Leaf>, Option<(String, String)>) {
-        let p = |n: &str| Leaf { dt: "Protocol".into(), opts: vec![("name".to_string(), n.to_string())] };
-        match arp_mode {
-            2 => {
-                let mut v = vec![p("IPv4"), p("UDP"), p("ARP")];
-                let k = rng.below(3) as usize;
-                v.swap(0, k);
-                (v, None)
-            }
-            3 => (vec![p("UDP")], Some(("auto-protocol".to_string(), "true".to_string()))),
-            _ => {
-                if rng.chance(1, 2) {
-                    (vec![p("IPv4"), p("UDP")], None)
-                } else {
-                    (vec![p("UDP"), p("IPv4")], None)
-                }
-            }
-        }
-    };
+    // 0,1: no ARP anywhere   2: ARP listed explicitly on every machine   3: auto-protocol on every machine
+    // 4,5: MIXED — every machine has ARP, but each gets it its own way (listed / added by auto-protocol,
+    //      with its own subset and order of listed protocols); the styles are dealt out over the final
+    //      machine order below (explicit first, auto first, alternating, random)
+    let arp_mode = rng.below(6);
+    // placeholder; the real protocol lines are assigned once the machine order is known
+    let protocols = |_rng: &mut Rng| -> (Vec<Leaf>, Option<(String, String)>) { (vec![], None) };
     let port_s = |rng: &mut Rng, p: u16| -> String {
         if rng.chance(1, 2) {
             format!("0x{:x}", p)
@@ -1729,6 +1716,72 @@ fn gen_plan(rng: &mut Rng, seed_tag: u64) -> Plan {
             label.push_str(" shared-net-second");
         }
     }
+    // ---- protocol sections, per machine, in the final machine order ----
+    {
+        let p = |n: &str| Leaf { dt: "Protocol".into(), opts: vec![("name".to_string(), n.to_string())] };
+        let shuffle = |rng: &mut Rng, v: &mut Vec<Leaf>| {
+            for i in (1..v.len()).rev() {
+                let j = rng.below(i as u64 + 1) as usize;
+                v.swap(i, j);
+            }
+        };
+        let n = machs.len();
+        // which machines rely on auto-protocol (the others list what they need)
+        let auto: Vec<bool> = match arp_mode {
+            0 | 1 | 2 => vec![false; n],
+            3 => vec![true; n],
+            _ => {
+                let pattern = rng.below(5);
+                let k = rng.range(1, (n.max(2) - 1) as u64) as usize; // size of the leading block
+                let mut v: Vec<bool> = (0..n)
+                    .map(|i| match pattern {
+                        0 => i >= k,           // explicit machines first, then auto machines
+                        1 => i < k,            // auto machines first
+                        2 => i % 2 == 1,       // alternating, explicit first
+                        3 => i % 2 == 0,       // alternating, auto first
+                        _ => rng.chance(1, 2), // any mix
+                    })
+                    .collect();
+                // a mix holds both kinds whenever there are two machines
+                if n >= 2 && v.iter().all(|x| *x) {
+                    v[rng.below(n as u64) as usize] = false;
+                }
+                if n >= 2 && v.iter().all(|x| !*x) {
+                    v[rng.below(n as u64) as usize] = true;
+                }
+                label.push_str(&format!(" mix={}", ["explicit-first", "auto-first", "alternating-e", "alternating-a", "random"][pattern as usize]));
+                v
+            }
+        };
+        for (i, m) in machs.iter_mut().enumerate() {
+            let mut prots = match (arp_mode, auto[i]) {
+                (0 | 1, _) => vec![p("IPv4"), p("UDP")],
+                (_, false) => vec![p("IPv4"), p("UDP"), p("ARP")],
+                // what an auto-protocol machine still lists: UDP always (it is never added), IPv4 / ARP optionally
+                (_, true) => match rng.below(if arp_mode == 3 { 6 } else { 4 }) {
+                    0 => vec![p("UDP"), p("IPv4")],
+                    1 => vec![p("UDP"), p("ARP")],
+                    2 if arp_mode != 3 => vec![p("UDP"), p("IPv4"), p("ARP")],
+                    _ => vec![p("UDP")],
+                },
+            };
+            shuffle(rng, &mut prots);
+            m.prots = prots;
+            if auto[i] {
+                m.opts.push(o("auto-protocol", "true"));
+            } else if rng.chance(1, 8) {
+                // the switch spelled out in its off position
+                m.opts.push(o("auto-protocol", "false"));
+            }
+        }
+        if arp_mode >= 4 {
+            let first_auto = auto.iter().position(|x| *x);
+            let first_expl = auto.iter().position(|x| !*x);
+            if let (Some(a), Some(e)) = (first_auto, first_expl) {
+                label.push_str(if e < a { " explicit-before-auto" } else { " auto-before-explicit" });
+            }
+        }
+    }
     // argument order within a line is arbitrary
     for m in machs.iter_mut() {
         for a in m.apps.iter_mut() {
@@ -1813,7 +1866,7 @@ fn intended_line(p: &Plan) -> String {
     line
 }
 
-const RULE_RUN: &str = "descriptions: 1..3 networks (range / single-ip entries), 1..3 capture machines (count type, shared factory when several), 0..2 forwards (chains), 1..3 sender machines with count 1..4 and 1..2 send_message applications wired by name or by address, or a ping_pong pair; IPv4+UDP in either order, optionally ARP everywhere (explicit or auto-protocol); second networks on some machines; rendered in a random layout, parsed by core_parser, built by the NDL generator, run by run_internet on a paused clock (5 s virtual timeout) in a worker process; non-trivial = a forward, a count > 1 or two captures; distinct = hash of the run line";
+const RULE_RUN: &str = "descriptions: 1..3 networks (range / single-ip entries), 1..3 capture machines (count type, shared factory when several), 0..2 forwards (chains), 1..3 sender machines with count 1..4 and 1..2 send_message applications wired by name or by address, or a ping_pong pair; protocol sections per machine: IPv4+UDP in either order without ARP, or ARP on every machine — all listed explicitly (any order), all by auto-protocol='true' (listing UDP, UDP+IPv4 or UDP+ARP), or MIXED within one description (explicit machines first, auto machines first, alternating, random; different listed subsets per machine; sender counts > 1; auto-protocol='false' spelled out now and then); second networks on some machines; rendered in a random layout, parsed by core_parser, built by the NDL generator, run by run_internet on a paused clock (5 s virtual timeout) in a worker process; non-trivial = a forward, a count > 1 or two captures; distinct = hash of the run line";
 
 fn run_one_case(spec: &str, dir: &Path) -> CaseReport {
     let mut rep = CaseReport::default();
